@@ -16,7 +16,8 @@ RULE = ("cases (TLE, observer, start, length, horizon): TLEs = the near-earth el
         "length 1-14 h (quick) / 1-72 h (thorough); horizon in {0,5,10,30,60} deg or, for grazing cases, the peak elevation of "
         "a found pass minus 0.002-0.3 deg when that lies in 0-60 deg (passes of some 30-200 s); 40 % of the observers are put on the ground track at a "
         "random instant of the window (offset 0-0.3 deg: passes culminating above 85 deg), the others are uniform on the "
-        "sphere, altitude 0-3 km; derived cases start the window inside a pass or end it inside / up to 90 s after one; a "
+        "sphere, altitude 0-3 km; derived cases start the window inside a pass, end it inside / up to 90 s after one, start "
+        "it 0.5-59.5 s before a rise (rise between sample 0 and 1) or end it 60-120 s after a fall; a "
         "case is kept only if, at every whole minute of the window, the propagated altitude stays within 80-30000 km and the "
         "geocentric distance within 150 km of the element set's own perigee-apogee range; an "
         "exception of get_next_passes on a kept case is a violation, not a refusal. Correspondence: the real "
@@ -29,8 +30,15 @@ RULE = ("cases (TLE, observer, start, length, horizon): TLEs = the near-earth el
         "model's parabStep. Oracle (statement only): elevation sampled every second over the window, crossings refined by "
         "bisection to 1e-9 s, maxima refined on 1 ms and 1 us grids; a >60 s interval counts as reported when a pass has rise "
         "and fall within 1 s of its ends; 'in between' is judged at the whole seconds at least 1 ms inside (rise, fall). "
-        "distinct = (tle, observer, start, length, horizon); non-trivial = at least one pass reported or one above-horizon "
-        "interval in the truth")
+        "Day-boundary stream (correspondence and oracle): searches of 25-72 h whose start is chosen, after locating a pass "
+        "with a 12 h probe search, so that its rise, fall or culmination falls inside minute k*1440-1 .. k*1440 (k = 1, 2, 3) "
+        "of the search (start = event - (k*1440 - 0.5 +- 0.4) min; starts therefore carry fractional seconds). Sequence "
+        "stream (oracle): 6-7 calls on ONE Orbital object - same start and station with increasing (1 h, 6-12 h, 25-72 h) and "
+        "decreasing (24 h, 2 h) lengths and changing horizon, the same station with starts shifted by 7-90 min, a second "
+        "station with the same and shifted starts, two stations interleaved; every call's result is judged by the full oracle "
+        "and must equal the result of a fresh object. "
+        "distinct = (tle, observer, start, length, horizon) resp. (tle, first start) per sequence; non-trivial = at least one "
+        "pass reported or one above-horizon interval in the truth")
 ASSUMPTIONS = ["cases whose propagated altitude leaves 80-30 000 km, or whose geocentric distance leaves the element set's own "
                "perigee-apogee range by more than 150 km, at a whole minute of the window are skipped (element sets with extreme "
                "drag terms propagated days from their epoch give orbits of another size, or million-km positions, that "
@@ -297,7 +305,7 @@ def gen_cases(ctx, n, max_len):
             continue
         out.append(case)
         # derived cases: grazing horizon, windows cut inside a pass
-        if r.random() < 0.45:
+        if r.random() < 0.5:
             out.extend(_derived(ctx, o, case))
     return out[:max(n, len(out))]
 
@@ -312,7 +320,21 @@ def _derived(ctx, o, case):
     p = r.choice(ps)
     out = []
     k = r.random()
-    if k < 0.5:
+    if k < 0.2:
+        # the pass rises inside the FIRST minute of the search (between sample 0 and sample 1)
+        c = dict(case)
+        c["start"] = (p[0] - dt.timedelta(seconds=r.uniform(0.5, 59.5))).isoformat()
+        c["kind"] = "rise_first_minute"
+        out.append(c)
+    elif k < 0.35:
+        # the pass falls inside the last sampled minute that still obliges (fall 60-120 s before the end of the window)
+        end = p[1] + dt.timedelta(seconds=r.uniform(60.5, 119.5))
+        c = dict(case)
+        c["start"] = (end - dt.timedelta(hours=int(case["length"]))).isoformat()
+        c["kind"] = "fall_last_minute"
+        if orbits.answers(o, _start(c)):
+            out.append(c)
+    elif k < 0.7:
         # grazing: horizon just under the peak of this pass -> a short pass around its culmination
         peak = el_at_datetime(o, p[2], obs, 0.0)
         delta = r.choice([0.002, 0.005, 0.01, 0.02, 0.05, 0.1, 0.3])
@@ -322,7 +344,7 @@ def _derived(ctx, o, case):
             c["horizon"] = h
             c["kind"] = "grazing"
             out.append(c)
-    elif k < 0.75:
+    elif k < 0.85:
         # window starts inside the pass (the interval does not begin after the start)
         inside = p[0] + (p[1] - p[0]) * r.uniform(0.05, 0.95)
         c = dict(case)
@@ -376,6 +398,136 @@ def gen_zero_cases(ctx, n):
 def case_key(case):
     return (case["line1"][2:7], case["line2"][8:16], round(case["lon"], 6), round(case["lat"], 6), case["start"],
             case["length"], float(case["horizon"]))
+
+
+
+# ------------------------------------------------------------------------------------------------ call sequences, day boundaries
+def _call_case(seq, c):
+    case = {"line1": seq["line1"], "line2": seq["line2"], "kind": "sequence"}
+    case.update(c)
+    return case
+
+
+def gen_sequences(ctx, n, long_len):
+    """Sequences of calls on ONE Orbital object: same start and station with increasing and decreasing lengths and changing
+    horizon, the same station with shifted starts, another station with the same and with shifted starts."""
+    r = ctx.rng
+    pool = _tle_pool(ctx, max(6, 2 * n))
+    out = []
+    tries = 0
+    while len(out) < n and tries < 12 * n:
+        a, b, o = pool[tries % len(pool)]
+        tries += 1
+        epoch = o.tle.epoch.astype(dt.datetime)
+        t0 = epoch + dt.timedelta(seconds=r.uniform(-2 * 86400, 86400))
+        t0 = t0.replace(microsecond=r.choice([0, r.randrange(10 ** 6)]))
+        try:
+            sta = _under_track(ctx, o, t0, 3) if r.random() < 0.4 else _rand_observer(ctx)
+            stb = _rand_observer(ctx)
+        except Exception:  # noqa
+            continue
+        h0, h1 = r.choice([0, 5, 10]), r.choice([5, 10, 30])
+        sh = dt.timedelta(minutes=r.choice([7, 30, 61, 90]), seconds=r.choice([0, 0, 13.25]))
+        l_mid = r.choice([6, 12, 12])
+        l_long = r.randint(25, long_len) if long_len > 25 else long_len
+
+        def call(t, length, st, h):
+            return {"start": t.isoformat(), "length": length, "lon": st[0], "lat": st[1], "alt": st[2], "horizon": h}
+        variant = r.randrange(3)
+        if variant == 0:      # short, longer, longest, short again with the other horizon; then shifted starts, other station
+            calls = [call(t0, 1, sta, h0), call(t0, l_mid, sta, h0), call(t0, l_long, sta, h1), call(t0, 1, sta, h1),
+                     call(t0 + sh, 3, sta, h0), call(t0 + sh, 2, stb, h0), call(t0, l_mid, stb, h0)]
+        elif variant == 1:    # long then short (decreasing), then longer again on the same key; then the other station
+            calls = [call(t0, 24, sta, h0), call(t0, 2, sta, h0), call(t0, l_long, sta, h0), call(t0, 2, stb, h0),
+                     call(t0 - sh, 4, sta, h1), call(t0, 3, sta, h1), call(t0, l_mid, sta, h1)]
+        else:                 # two stations interleaved with growing lengths (same key again after another key, and consecutively)
+            calls = [call(t0, 2, sta, h0), call(t0, 2, stb, h0), call(t0, l_mid, sta, h0), call(t0, l_mid, stb, h1),
+                     call(t0, l_long, stb, h0), call(t0 + sh, l_mid, sta, h0), call(t0, 1, sta, h1)]
+        seq = {"line1": a, "line2": b, "kind": "sequence", "calls": calls}
+        if all(in_domain(_call_case(seq, c)) for c in calls):
+            out.append(seq)
+    return out
+
+
+def judge_sequence(seq):
+    """All calls on one object; each result is judged by the full oracle and compared with a fresh object's result.
+    Returns (violations [(kind, observed, required, call index)], stats)."""
+    o = _orb(seq)
+    viol = []
+    tot = {"calls": 0, "passes": 0, "required_intervals": 0}
+    for i, c in enumerate(seq["calls"]):
+        case = _call_case(seq, c)
+        tag = "call %d of the sequence (start %s, %d h, station %.4f/%.4f, horizon %s)" % (
+            i, c["start"], c["length"], c["lon"], c["lat"], c["horizon"])
+        try:
+            ps = o.get_next_passes(_start(case), int(c["length"]), c["lon"], c["lat"], c["alt"], horizon=c["horizon"])
+        except Exception as e:  # noqa
+            viol.append(("raised", "%s: %s: %s" % (tag, type(e).__name__, str(e)[:120]), "a list of passes", i))
+            continue
+        v, st = judge(case, ps)
+        tot["calls"] += 1
+        tot["passes"] += st["passes"]
+        tot["required_intervals"] += st["required_intervals"]
+        for (kind, observed, required) in v:
+            viol.append((kind, tag + ": " + observed, required, i))
+        fresh, _, err = run_impl(case)
+        if err or list(fresh) != list(ps):
+            viol.append(("history_dependence", "%s: the used object reports %d pass(es) %s, a fresh object %s" % (
+                tag, len(ps), [str(x[0]) for x in ps][:6], err or ("%d pass(es) %s" % (len(fresh), [str(x[0]) for x in fresh][:6]))),
+                "the result of a call does not depend on earlier calls on the same object", i))
+    return viol, tot
+
+
+def gen_boundary_cases(ctx, n, max_len=72):
+    """Searches longer than 24 h whose start is chosen so that the rise, the fall or the culmination of a pass falls inside
+    minute k*1440-1 .. k*1440 (k = 1, 2, 3) of the search: start = event - (k*1440 - 0.5 +- 0.4) min."""
+    r = ctx.rng
+    pool = _tle_pool(ctx, max(6, n))
+    out = []
+    tries = 0
+    while len(out) < n and tries < 15 * n:
+        a, b, o = pool[tries % len(pool)]
+        tries += 1
+        epoch = o.tle.epoch.astype(dt.datetime)
+        k = r.choice([1, 1, 2, 3]) if max_len >= 72 else 1
+        horizon = r.choice(HORIZONS[:4])
+        try:
+            lon, lat, alt = _rand_observer(ctx) if r.random() < 0.7 else _under_track(ctx, o, epoch, 3)
+        except Exception:  # noqa
+            continue
+        probe_start = epoch + dt.timedelta(seconds=r.uniform(-86400, 86400))
+        probe = {"line1": a, "line2": b, "start": probe_start.isoformat(), "length": 12, "lon": lon, "lat": lat, "alt": alt,
+                 "horizon": horizon, "kind": "probe"}
+        if not in_domain(probe):
+            continue
+        ps, _, err = run_impl(probe)
+        if err or not ps:
+            continue
+        p = r.choice(ps)
+        which = r.choice(["rise", "rise", "fall", "fall", "culmination"])
+        event = p[{"rise": 0, "fall": 1, "culmination": 2}[which]]
+        start = event - dt.timedelta(minutes=k * 1440 - 0.5 + r.uniform(-0.4, 0.4))
+        length = r.randint(24 * k + 1, max(24 * k + 1, max_len))
+        case = {"line1": a, "line2": b, "start": start.isoformat(), "length": length, "lon": lon, "lat": lat, "alt": alt,
+                "horizon": horizon, "kind": "day_boundary", "boundary_event": which, "boundary_minute": k * 1440}
+        if in_domain(case):
+            out.append(case)
+    return out
+
+
+def _run_sequences(ctx, seqs, label):
+    for seq in seqs:
+        viol, tot = judge_sequence(seq)
+        ctx.count("eval_oracle_sequence_calls", tot["calls"])
+        ctx.count("eval_oracle_passes", tot["passes"])
+        ctx.count("eval_oracle_required_intervals", tot["required_intervals"])
+        ctx.count("oracle_sequences")
+        ctx.bump(label + "_kind", "sequence")
+        ctx.distinct((seq["line1"][2:7], seq["calls"][0]["start"], "sequence"))
+        for (kind, observed, required, i) in viol[:6]:
+            c = dict(seq)
+            c["failing_call"] = i
+            ctx.violation(kind, c, observed, required, site="Orbital.get_next_passes")
 
 
 # ------------------------------------------------------------------------------------------------ correspondence
@@ -510,6 +662,7 @@ def correspond(ctx):
     max_len = ctx.size(12, 72)
     cases = gen_cases(ctx, n, max_len)
     cases += gen_zero_cases(ctx, ctx.size(6, 40))
+    cases += gen_boundary_cases(ctx, ctx.size(4, 40), ctx.size(50, 72))
     todo, lines = [], []
     plines, pexp = [], []
     for case in cases:
@@ -746,6 +899,10 @@ def oracle(ctx):
     wr, wc = _run_oracle(ctx, cases, "oracle")
     ctx.note("oracle: worst |elevation - horizon| at a reported rise/fall = %.2e deg; worst (true maximum - elevation at the "
              "reported culmination) = %.2e deg" % (wr, wc))
+    # searches longer than a day with an event of a pass inside the minute that straddles a day boundary of the search
+    _run_oracle(ctx, gen_boundary_cases(ctx, ctx.size(8, 70), 72), "oracle")
+    # sequences of calls on one object
+    _run_sequences(ctx, gen_sequences(ctx, ctx.size(3, 24), ctx.size(30, 72)), "oracle")
     # a sample exactly on the horizon (genuine defect, see exact_zero_sample_degenerate_pass): judged only when the
     # coordinator has recorded it (known) or repaired it (fixed) in known_findings.json; otherwise observed and noted
     zc = gen_zero_cases(ctx, ctx.size(4, 30))
@@ -767,6 +924,8 @@ def search(ctx):
     """Intensified search after a broken tie: a larger sweep of the same stream, windows up to 24 h."""
     cases = gen_cases(ctx, 260 if ctx.tier == "quick" else 600, 24 if ctx.tier == "quick" else 72)
     _run_oracle(ctx, cases, "search")
+    _run_oracle(ctx, gen_boundary_cases(ctx, 30 if ctx.tier == "quick" else 90, 72), "search")
+    _run_sequences(ctx, gen_sequences(ctx, 8 if ctx.tier == "quick" else 30, 72), "search")
     if zero_regime_enabled():
         _run_oracle(ctx, gen_zero_cases(ctx, 20), "search")
 
@@ -822,6 +981,12 @@ def replay(ctx, payload):
             still += 1 if (diffs or ctx.disagreements) else 0
         return 1 if still else 0
     case = payload.get("input", payload)
+    if "calls" in case:
+        viol, tot = judge_sequence(case)
+        for (kind, observed, required, i) in viol:
+            print("VIOLATES %s: %s; required: %s" % (kind, observed, required))
+        print("stats:", tot)
+        return 1 if viol else 0
     viol, st = judge(case)
     for (kind, observed, required) in viol:
         print("VIOLATES %s: %s; required: %s" % (kind, observed, required))
